@@ -12,7 +12,7 @@ RULE = ("Rank-planted problems as in C01; for each algorithm ALL index pairs q_x
         "Network part: the <cov-mat> of the XML output equals m0^2 Q for several --cov-band values. "
         "Non-trivial = singular with subset, banded covariance, or n>=4 (elements outside the envelope exist); distinct by sha1.")
 ASSUMPTIONS = ["numpy reference; tolerance 1e-8*cond^2*scale"]
-REQUIRED_CLASSES = ["d>0", "band>0", "subset"]
+REQUIRED_CLASSES = ["d>0", "band>0", "subset", "net.band<full", "net.band=full", "net.free", "net.fixed"]
 
 
 def check_Q(tag, Q, R, stats):
@@ -117,7 +117,104 @@ def oracle(case, stats):
     return fails
 
 
+# ------------------------------------------------------------------ (b) network level: <cov-mat> of the XML output
+
+def net_case_strategy():
+    from hypothesis import strategies as st
+    from .. import gen_net
+
+    @st.composite
+    def net_case(draw):
+        free = draw(st.integers(0, 2)) == 0
+        net = draw(gen_net.determined_network(noise=1, free=free))
+        if not free and draw(st.booleans()):
+            gen_net.add_mixed_points(draw, net)
+        return {"net": net, "alg": draw(st.sampled_from(ALGS)), "band": draw(st.sampled_from([-1, 0, 1, 2, 3, 7, 1000]))}
+    return net_case()
+
+
+def oracle_network(c, stats):
+    import math
+    from .. import gen_net, netmodel as nm, netrun, netlin, adjxml
+    from . import c20
+    net, alg, band = c["net"], c["alg"], c["band"]
+    if net.get("free"):
+        if not c20.well_posed_free(net):
+            stats.label("discarded_free_not_well_posed")
+            return []
+    elif not gen_net.is_determined(net):
+        stats.label("discarded_not_determined")
+        return []
+    text = nm.gkf_text(net)
+    args = ["--algorithm", alg] + ([] if band == -1 else ["--cov-band", str(band)])
+    res = netrun.gama_local(text, args, outputs=("xml",))
+    if res["crash"] is not None:
+        return ["net.%s.crash: %s %s" % (alg, res["crash"]["kind"], res["crash"]["frame"])]
+    try:
+        x = adjxml.parse_adjustment(res["xml"] or "")
+    except adjxml.NotWellFormed as e:
+        return ["net.%s.xml: %s" % (alg, e)]
+    if "error" in x:
+        if net.get("free") and alg == "envelope":
+            return ["net.envelope_free: well-posed free network refused by envelope"]
+        return ["net.%s.refused: %s" % (alg, x["error"]["descriptions"])]
+    dump, crash = netrun.net_driver(text, alg)
+    if crash is not None or dump.get("stage") != "adjusted":
+        return ["net.%s.driver: %s" % (alg, str(crash or dump)[:200])]
+    A, b, C, minx, R = netlin.reference(dump)
+    if R is None or not R.resolving or R.sg_ratio < 0.05:
+        stats.label("discarded_ambiguous")
+        return []
+    if net.get("free") and alg == "envelope" and x["summary"]["defect"] != R.d:
+        return ["net.envelope_free: envelope reports defect %d, numpy %d" % (x["summary"]["defect"], R.d)]
+    if "cov" not in x or x["cov"]["dim"] == 0:
+        stats.label("net.no_cov")
+        return []
+    S = x["summary"]
+    m0 = S["aposteriori"] if S["used"] == "aposteriori" else S["apriori"]
+    dim = x["cov"]["dim"]
+    want_band = dim - 1 if band == -1 else min(band, dim - 1)
+    fails = []
+    stats.label("net.band=full" if want_band == dim - 1 else "net.band<full", "net.free" if net.get("free") else "net.fixed")
+    if x["cov"]["band"] != want_band:
+        fails.append("net.%s.band: printed band %d, requested %d with dimension %d" % (alg, x["cov"]["band"], band, dim))
+        return fails
+    M, used = adjxml.cov_band_matrix(x["cov"])
+    if used != len(x["cov"]["flt"]):
+        return ["net.%s.cov_count: %d elements printed, %d expected for dim %d band %d" % (alg, len(x["cov"]["flt"]), used, dim, want_band)]
+    idx = x.get("original_index", [])
+    if len(idx) != dim or sorted(set(idx)) != sorted(idx) or any(i < 1 or i > R.n for i in idx):
+        return ["net.%s.original_index: %s for dimension %d, %d unknowns" % (alg, idx[:12], dim, R.n)]
+    # rows: coordinates in the order of the <adjusted> list, then the orientations in the order of <orientation-shifts>
+    exp_types = []
+    for a in x["coordinates"]["adjusted"]:
+        if "x" in a:
+            exp_types += [("X", a["id"]), ("Y", a["id"])]
+        if "z" in a:
+            exp_types.append(("Z", a["id"]))
+    exp_types += [("R", o["id"]) for o in x["orientations"]]
+    got_types = [tuple(dump["unknowns"][i - 1]) for i in idx]
+    if exp_types != got_types:
+        return ["net.%s.original_index: rows are %s, the lists of the XML say %s" % (alg, got_types[:8], exp_types[:8])]
+    ii = [i - 1 for i in idx]
+    ref = m0 * m0 * R.Q[np.ix_(ii, ii)]
+    kappa = R.cond / max(R.sg_ratio, 1e-3)
+    worst = 0.0
+    for i in range(dim):
+        for j in range(i, min(dim, i + want_band + 1)):
+            t = (4e-7 + 1e-9 * kappa * kappa) * max(abs(ref[i, j]), math.sqrt(abs(ref[i, i] * ref[j, j]))) + 1e-12
+            worst = max(worst, abs(M[i, j] - ref[i, j]) / t)
+            if abs(M[i, j] - ref[i, j]) > t:
+                fails.append("net.%s.cov: element (%d,%d) printed %.9g, m0^2 Q* = %.9g (band %d)" % (alg, i + 1, j + 1, M[i, j], ref[i, j], want_band))
+                return fails
+    stats.ratio("net.cov", worst)
+    return fails
+
+
 PARTS = [
     Part("cofactors", strategy=lambda: gen_linear.linear_problem(), oracle=oracle,
          nontrivial=lambda c: nontrivial(c) or c["n"] >= 4, n={"quick": 4000, "thorough": 40000}),
+    Part("network", strategy=net_case_strategy, oracle=oracle_network, n={"quick": 2500, "thorough": 20000},
+         nontrivial=lambda c: c["band"] != -1 or bool(c["net"].get("free")),
+         sample=lambda c: {"alg": c["alg"], "band": c["band"], "free": bool(c["net"].get("free"))}),
 ]
